@@ -100,7 +100,24 @@ let spec fs obs = if model fs = "BADCASE" then "pre" else match fs with
       (match int_spec (bytes_of_hex c) default_int with
        | None -> verdict ["E"; "EINVAL"] obs
        | Some v -> verdict ["R"; dec_of_n v] obs)
-  | [("c0" | "c1" | "c2" | "c6"); _] -> (match obs with ["CRASH"] | ["TIMEOUT"] -> "bad" | _ -> "pre")
+  | ["c0"; c] -> let b = bytes_of_hex c in verdict ["R"; string_of_int (List.length b); hex_of_bytes b] obs
+  | ["c1"; c] -> let b = cat (plain_lines (bytes_of_hex c)) in verdict ["R"; string_of_int (List.length b); hex_of_bytes b] obs
+  | ["c2"; c] ->
+      let b = bytes_of_hex c in
+      (match list_spec b with
+       | None -> verdict ["E"; "EINVAL"] obs
+       | Some [] -> verdict ["R"; "0"; "-"] obs
+       | Some es ->
+           (match obs with
+            | ["R"; n; img] when n = string_of_int (List.length b) ->
+                let i = bytes_of_hex img in
+                if List.length i = List.length b && pieces i = es then "ok" else "bad"
+            | _ -> "bad"))
+  | ["c6"; c] ->
+      (match oneliner_spec (bytes_of_hex c) with
+       | OneNone -> verdict ["E"; "ENOENT"] obs
+       | OneError -> verdict ["E"; "EINVAL"] obs
+       | OneLine l -> verdict ["R"; string_of_int (List.length l); hex_of_bytes l] obs)
   | _ -> "BADCASE"
 
 let () =
